@@ -104,8 +104,10 @@ def run(ctx: Ctx) -> None:
     # which groups of _line_re are the number and the quoted name (whatever their numbers are)
     lr = ctx.repo.folder("lexer").get("_line_re")
     gnum = gname = None
+    gnames: Dict[int, str] = {}
     try:
         tree = sre_parse.parse(lr.pattern, lr.flags)
+        gnames = {idx: nm for nm, idx in getattr(tree.state, "groupdict", {}).items()}
         last = None
         for op, av in tree:
             if op == sre_c.SUBPATTERN and av[0] is not None:
@@ -125,11 +127,13 @@ def run(ctx: Ctx) -> None:
         atoms = {}
         linear_form(offs[0].value, atoms)
         atoms = {k: v for k, v in atoms.items() if v != 0}
-        want = {"1": 1, "self.lex.lineno": 1, f"int({m}.group({gnum}))": -1}
-        ok = atoms == want
+        refs = [f"{m}.group({gnum})"] + ([f"{m}.group('{gnames[gnum]}')", f"{m}['{gnames[gnum]}']"] if gnum in gnames else []) + [f"{m}[{gnum}]"]
+        ok = any(atoms == {"1": 1, "self.lex.lineno": 1, f"int({r_})": -1} for r_ in refs)
         why = f"line_offset is computed as {norm(offs[0].value)}: with current_location() = lineno - line_offset the line after '#line N' must report N, which needs physical lineno - N + 1 (N = group {gnum} of the match)"
     ctx.ob("R10.3", "lexer:PlyLexer.t_PP_DIRECTIVE|line_offset arithmetic", ok, msg=why, node=offs[0] if offs else fn, mod=lex)
-    ok = len(names) == 1 and len(mvars) == 1 and norm(names[0].value) == f"{next(iter(mvars))}.group({gname})"
+    mv_ = next(iter(mvars)) if mvars else "?"
+    name_refs = [f"{mv_}.group({gname})", f"{mv_}[{gname}]"] + ([f"{mv_}.group('{gnames[gname]}')", f"{mv_}['{gnames[gname]}']"] if gname in gnames else [])
+    ok = len(names) == 1 and len(mvars) == 1 and norm(names[0].value) in name_refs
     same = ok and offs and lex.parent.get(names[0]) is lex.parent.get(offs[0])
     ctx.ob("R10.3", "lexer:PlyLexer.t_PP_DIRECTIVE|file name from the quoted group, same branch", bool(same),
            msg=f"the file name is not taken from the quoted group ({gname}) of the same #line match, or not on the branch that re-bases the line", node=names[0] if names else fn, mod=lex)
